@@ -92,7 +92,7 @@ def validate_v1(ctx, sd, trace, n_events, sig_prefix, what):
 
 def run_v1(ctx, sd, exe, q):
     """the legacy creator (rewards.go): R1 for the intended design and for the code as it is, TLC-enumerated and random runs"""
-    base = dict(spec="MCSpec", log="LogLast", known="", depth=0, totals="30, 101", devs="0, 3", leaders="0, 4",
+    base = dict(spec="MCSpec", log="LogLast", known="", depth=0, totals="101", devs="0, 3", leaders="0, 4",
                 prots="0, 6", rpbs="0, 5, 20", sels="0, 2", blocks="MCBlockOne", cons="MCConsFew",
                 rest="VIEW cvars\nINVARIANTS Inv_C35_V1_NoClauseViolated")
     if q:
@@ -101,7 +101,9 @@ def run_v1(ctx, sd, exe, q):
     def cfg(name, **kw):
         open(os.path.join(sd, name), "w").write(CFG_V1 % dict(base, **kw))
         return name
-    ctx.tlc(sd, "MC_RewardsV1", cfg("v1.cfg"), timeout=3000, heap="8g")
+    rv = ctx.tlc(sd, "MC_RewardsV1", cfg("v1.cfg"), timeout=3000, heap="8g")
+    if rv.ok and rv.depth != 2:
+        ctx.broken.append("vacuity guard: no legacy run was evaluated (search depth %s, expected 2)" % rv.depth)
     r = ctx.tlc(sd, "MC_RewardsV1", cfg("v1asis.cfg", known='"V1-inactive-counted-twice"'), timeout=3000, heap="8g", count=False,
                 allow=("invariant",))
     ctx.cov(v1_model_counterexample_with_named_deviation=r.error or "none found")
@@ -122,7 +124,7 @@ def run_v1(ctx, sd, exe, q):
         ctx.cov(traces_validated_against_impl=int(h.stats.get("events", 0)), evaluations=int(h.stats.get("events", 0)))
     for mode in ("clean", "inactive"):
         tr = ctx.path("trace-v1-%s.ndjson" % mode)
-        h = ctx.vh(exe, ["recordv1", ctx.seed, 150 if q else 1500, tr] + (["inactive"] if mode == "inactive" else []), timeout=1500)
+        h = ctx.vh(exe, ["recordv1", ctx.seed, 150 if q else 800, tr] + (["inactive"] if mode == "inactive" else []), timeout=1500)
         st = validate_v1(ctx, sd, tr, int(h.stats.get("events", 0)), "C35/v1/trace-" + mode,
                          "legacy rewardsCreator on a random consistent input (%s)" % mode)
         if st == "accepted":
@@ -171,18 +173,24 @@ def run(ctx):
 
     # R1: every consistent small input through the five stages: sum identity, positivity, destinations, non-negative
     #     remainders, per-node rewards bounded
-    r1 = ctx.tlc(sd, "MC_Rewards", cfg("r1.cfg"), timeout=3000, coverage=not q, heap="8g")
+    r1 = ctx.tlc(sd, "MC_Rewards", cfg("r1.cfg"), timeout=3000, heap="8g")
     ctx.notes.append("R1 V2: %.0fs" % r1.wall)
-    if not q and r1.ok and r1.coverage_zero:
-        ctx.broken.append("vacuity guard: never taken: %s" % sorted(set(r1.coverage_zero)))
+    # vacuity guard: the run is a linear pipeline New -> SplitTopUp -> BasePerNode -> TopUpPerNode -> Aggregate ->
+    # AdjustProtocol, so a complete search of depth 6 means every stage action was taken and the "done" antecedent of
+    # the invariants was reached (TLC's -coverage output is not used: its interim reports list not-yet-reached actions
+    # and the helper operator `Step` with count 0)
+    if r1.ok and r1.depth != 6:
+        ctx.broken.append("vacuity guard: the five-stage pipeline was not walked to the end (search depth %s, expected 6)" % r1.depth)
     if not q:
         # four validators (a waiting / eligible node in shard 2 with its own address), narrower figures
         ctx.tlc(sd, "MC_Rewards", cfg("r1b.cfg", nodes=4, totals="101", devs="3", leaders="4", prots="6", sels="0, 2",
                                       blocks="MCBlockFew", tus="7"), timeout=3000, heap="8g")
     # R1 of the economics stage (economics.go): inflation, the fees-exceed-inflation correction, what is published for the
     #    rewards creator; the published figures add up to TotalToDistribute - DevFeesInEpoch in every branch
-    ctx.tlc(sd, "MC_Rewards", cfg("eco.cfg", spec="EcoSpec", ecoinfls="0, 1, 7, 40",
-                                  rest="VIEW cvars\nINVARIANT Inv_C35_EcoPublishedAddUp"), timeout=900)
+    re = ctx.tlc(sd, "MC_Rewards", cfg("eco.cfg", spec="EcoSpec", ecoinfls="0, 1, 7, 40",
+                                       rest="VIEW cvars\nINVARIANT Inv_C35_EcoPublishedAddUp"), timeout=900)
+    if re.ok and re.depth != 4:
+        ctx.broken.append("vacuity guard: the economics stage was not walked to the end (search depth %s, expected 4)" % re.depth)
     exe = ctx.go_build("vh-rewards")
 
     # End to end: real economics -> real EpochEconomicsStatistics -> real rewardsCreatorV2, epochs with fees below /
@@ -197,6 +205,24 @@ def run(ctx):
                 end_to_end_epochs=h0.stats.get("stats", {}))
     if int(h0.stats.get("events", 0)) == 0:
         ctx.broken.append("the end-to-end stage produced no run")
+    if not q and st0 == "accepted":
+        def published_short(evs):           # the economics publishes rewards for blocks that are one unit short
+            for e in evs:
+                if e["a"] == "RunE2E" and e["in"]["eco"]["forBlocks"] > 1:
+                    e["in"]["eco"]["forBlocks"] -= 1
+                    e["in"]["run"]["forBlocks"] -= 1
+                    break
+            return evs
+        vlib.selftest_rejects(ctx, sd, "Trace_Rewards", OBS, tr0, published_short)
+
+        def wrong_branch(evs):              # fees above inflation but the uncorrected total reported
+            for e in evs:
+                ep = e["in"]["epoch"]
+                if e["a"] == "RunE2E" and ep["acc"] > ep["infl"]:
+                    e["in"]["eco"]["minted"] += 1
+                    break
+            return evs
+        vlib.selftest_rejects(ctx, sd, "Trace_Rewards", "Trace_Rewards.cfg", tr0, wrong_branch)
 
     # R2/R3 (a): TLC-enumerated small inputs run on the real rewardsCreatorV2, the observed runs validated by TLC
     inp = ctx.path("inputs.ndjson")
@@ -217,7 +243,7 @@ def run(ctx):
                 distinct_nontrivial=int(h.stats.get("distinct", 0)))
 
     # R3 (b): seeded random validator sets / economics at larger scale + real-scale runs
-    runs, big = (250, 60) if q else (2500, 500)
+    runs, big = (250, 60) if q else (1500, 300)
     tr2 = ctx.path("trace-random.ndjson")
     r3 = ctx.vh(exe, ["record", ctx.seed, runs, big, tr2], timeout=1500)
     st, line = vlib.validate_trace(ctx, sd, "Trace_Rewards", "Trace_Rewards.cfg", tr2, int(r3.stats.get("events", 0)),
